@@ -198,6 +198,34 @@ def _call_arg(ck, call, callee_qual, name):
     return A.arg_or_kw(call, ps.index(name), name) if name in ps else None
 
 
+def _conditions(fa, target):
+    """FA.conditions(target) brought to a CANONICAL disjunctive normal form (its prime implicants: consensus of every pair of
+    conjunctions that clash in exactly one literal, then absorption, to a fixpoint).  FA.conditions merges pairs greedily in set
+    iteration order, which can stop at different - equivalent but not minimal - forms from one process to the next; rules
+    compare the form, so they need the one that does not depend on that order."""
+    conds = fa.conditions(target)
+    if conds is None or len(conds) > 64:
+        return conds
+    res = set(conds)
+    for _round in range(12):
+        new = set()
+        lst = sorted(res, key=lambda c: sorted(c))
+        for i in range(len(lst)):
+            for j in range(i + 1, len(lst)):
+                a, b = lst[i], lst[j]
+                clash = [l for l in a if (l[0], not l[1]) in b]
+                if len(clash) != 1:
+                    continue
+                c = frozenset(x for x in (a | b) if x[0] != clash[0][0])
+                if not any(r <= c for r in res):
+                    new.add(c)
+        if not new or len(res) + len(new) > 400:
+            break
+        res |= new
+        res = {a for a in res if not any(b < a for b in res)}
+    return {a for a in res if not any(b < a for b in res)}
+
+
 def _single_conj(conds):
     """The literals of a one-conjunct DNF, or None."""
     if conds is None or len(conds) != 1:
@@ -1287,13 +1315,13 @@ def check_digest_consumes_rules(ck, R):
             # decided on PATH CONDITIONS: the update is reached exactly when the hash is not None (whether written
             # as `if h is not None: update`, `if h is None: continue`, or nested), and an iteration is abandoned
             # early only when the hash is None; the loop is never left early
-            cu = fa.conditions(ups[0])
+            cu = _conditions(fa, ups[0])
             okh = cu is not None and len(cu) == 1 and len(next(iter(cu))) == 1 and all(_no_walrus(l[0]) in none_lits and l[1] is False for l in next(iter(cu)))
             for s_ in A.walk_local(fl):
                 if isinstance(s_, (ast.Break, ast.Return)):
                     okh = False
                 if isinstance(s_, ast.Continue):
-                    cc = fa.conditions(s_)
+                    cc = _conditions(fa, s_)
                     okh = okh and cc is not None and all(any(_no_walrus(l[0]) in none_lits and l[1] is True for l in conj) for conj in cc)
     else:
         # the pieces are collected (comprehension / filling loop) and digested at once: the only filter is `hash is None`,
@@ -1512,7 +1540,7 @@ def check_descent_complete(ck, R):
     # merged tests alike); the visiting loops are never left early
     adds = [c for (c, el) in _set_additions(m, "result") if el is not None and [A.norm(a) for a in el] == ["self"]]
     want_m = {("self in result", False)}
-    okp = bool(adds) and all(_single_conj(m.conditions(c)) == want_m for c in adds + [c for (c, l, s_) in mv])
+    okp = bool(adds) and all(_single_conj(_conditions(m, c)) == want_m for c in adds + [c for (c, l, s_) in mv])
     okp = okp and not any(isinstance(x, (ast.Break, ast.Return, ast.Continue)) for (c, l, s_) in mv if l is not None
                           for lo in [l] + [p_ for p_ in m.stmts((ast.For, ast.While)) if m.inside(l, p_)] for x in A.walk_local(lo))
     ck.ob(R, m.key(None, "pruning"), okp, "memento rules are pruned only when already collected (never by package)" if okp else
@@ -1526,7 +1554,7 @@ def check_descent_complete(ck, R):
     seen_lits = set()
     okt = True
     for c in nadds + [c for (c, l, s_) in nv]:
-        lits = _single_conj(n.conditions(c))
+        lits = _single_conj(_conditions(n, c))
         if lits is None:
             okt = False
             seen_lits.add("<several path classes>")
@@ -1742,7 +1770,7 @@ def check_enforcement(ck, R):
     rs = [r for r in v.stmts(ast.Raise) if isinstance(r.exc, ast.Call) and A.call_attr(r.exc) == "UndeclaredDependencyError"]
     okr = len(rs) == 1
     valid = None
-    conds = v.conditions(rs[0]) if okr else None
+    conds = _conditions(v, rs[0]) if okr else None
     extra = []
     if okr and conds is not None and len(conds) == 1:
         lits = set(next(iter(conds)))
@@ -1888,6 +1916,40 @@ def _text_is_canonical(fa, e, at, renderers, depth=5):
         return _text_is_canonical(fa, e.body, at, renderers, depth) and _text_is_canonical(fa, e.orelse, at, renderers, depth)
     if isinstance(e, ast.BinOp) and isinstance(e.op, (ast.Add, ast.Mod)):
         return A.str_parts(e) is not None or (_text_is_canonical(fa, e.left, at, renderers, depth) and _text_is_canonical(fa, e.right, at, renderers, depth))
+    if isinstance(e, ast.Name) and depth > 0 and _bound_in_expression(fa, e):
+        # a variable of a comprehension: it holds the elements of what is iterated - canonical text if those elements were
+        # made by a renderer (`pairs = sorted((render(k), render(v)) for ...)` ... `for (k, v) in pairs`)
+        cur, gen = fa.pm.get(e), None
+        while cur is not None and not isinstance(cur, ast.stmt) and gen is None:
+            if isinstance(cur, (ast.ListComp, ast.SetComp, ast.GeneratorExp, ast.DictComp)):
+                gen = next((g for g in cur.generators if e.id in {x.id for x in ast.walk(g.target) if isinstance(x, ast.Name)}), None)
+            cur = fa.pm.get(cur)
+        if gen is None:
+            return False
+        idx = None
+        if isinstance(gen.target, (ast.Tuple, ast.List)):
+            idx = next((i for i, x in enumerate(gen.target.elts) if isinstance(x, ast.Name) and x.id == e.id), None)
+            if idx is None:
+                return False
+        it, it_at = gen.iter, at
+        for _ in range(6):
+            it = _orderless(it)
+            if isinstance(it, ast.Name) and not _bound_in_expression(fa, it):
+                ds = fa.df.reaching(it_at, it.id)
+                if len(ds) == 1 and ds[0].kind == "assign" and ds[0].value is not None:
+                    it, it_at = ds[0].value, ds[0].node
+                    continue
+            break
+        if isinstance(it, ast.Call) and isinstance(it.func, ast.Name) and it.func.id == "map" and len(it.args) == 2 and idx is None:
+            return isinstance(it.args[0], ast.Name) and it.args[0].id in renderers
+        if isinstance(it, (ast.ListComp, ast.GeneratorExp, ast.SetComp)):
+            elt = it.elt
+            if idx is not None:
+                if not (isinstance(elt, ast.Tuple) and idx < len(elt.elts)):
+                    return False
+                elt = elt.elts[idx]
+            return _text_is_canonical(fa, elt, it_at, renderers, depth - 1)
+        return False
     if isinstance(e, ast.Name) and depth > 0 and not _bound_in_expression(fa, e):
         ds = fa.df.reaching(at, e.id)
         if ds and any(d.kind == "aug" for d in ds):
@@ -2064,7 +2126,7 @@ def check_determinism_taint(ck, R):
                 continue
             n_sites += 1
             subject = fr.xnorm(operand, at) if not _bound_in_expression(fr, operand) else None
-            conds = fr.conditions(st) if subject is not None else None
+            conds = _conditions(fr, st) if subject is not None else None
             okg = conds is not None and bool(conds) and all(any(pol and _scalar_type_literal(txt, subject) for (txt, pol) in conj) for conj in conds)
             ck.ob(R, fr.key(st, "own-text-only-of-scalars:" + A.norm(operand)[:30]), okg,
                   "`%s` is rendered with its own text only where it is known to be a scalar" % A.short(operand, 30) if okg else
@@ -2994,7 +3056,17 @@ def check_every_symbol_watched(ck, R):
     def about_globals(if_):
         """is the test of this `if` about the function having a globals table (spelt on the spot or through a local)?"""
         ns_ = v.nodes(if_.test)
-        return "__globals__" in A.norm(if_.test) or (bool(ns_) and "__globals__" in v.xnorm(if_.test, ns_[0]))
+        t = v.expand(if_.test, ns_[0]) if ns_ else if_.test
+        while isinstance(t, ast.UnaryOp) and isinstance(t.op, ast.Not):
+            t = t.operand
+
+        def globals_read(x):
+            return (isinstance(x, ast.Attribute) and x.attr == "__globals__") or \
+                (isinstance(x, ast.Call) and A.call_attr(x) == "getattr" and len(x.args) >= 2 and A.const_str(x.args[1]) == "__globals__")
+
+        if isinstance(t, ast.Call) and A.call_attr(t) == "hasattr" and len(t.args) == 2 and A.const_str(t.args[1]) == "__globals__":
+            return True
+        return isinstance(t, ast.Compare) and len(t.ops) == 1 and isinstance(t.ops[0], (ast.Is, ast.IsNot)) and A.is_none(t.comparators[0]) and globals_read(t.left)
 
     allowed = [n.id for n in v.cfg.nodes if n.kind == "stmt" and isinstance(n.ast, ast.Return) and v.enclosing(n.ast, ast.If) is not None
                and about_globals(v.enclosing(n.ast, ast.If))]
